@@ -334,6 +334,31 @@ cJSON *good_decoded_name(cJSON *parent, unsigned char *last)
     return (found != NULL) ? found : cJSON_GetObjectItemCaseSensitive(parent, (char*)last);
 }
 
+/* MRG5: taking the null members out of a copy of the patch */
+static void bad_MRG5_prune(cJSON * const container)
+{
+    cJSON *child = container->child;
+    while (child != NULL)
+    {
+        cJSON *next = child->next;
+        if (cJSON_IsNull(child)) { cJSON_Delete(cJSON_DetachItemViaPointer(container, child)); }
+        else if (cJSON_IsObject(child) || cJSON_IsArray(child)) { bad_MRG5_prune(child); }
+        child = next;
+    }
+}
+static void good_prune(cJSON * const container)
+{
+    cJSON *child = container->child;
+    while (child != NULL)
+    {
+        cJSON *next = child->next;
+        if (cJSON_IsNull(child)) { cJSON_Delete(cJSON_DetachItemViaPointer(container, child)); }
+        else if (cJSON_IsObject(child)) { good_prune(child); }
+        child = next;
+    }
+}
+void use_prune(cJSON *c) { bad_MRG5_prune(c); good_prune(c); }
+
 /* LST1 (relinker calls, stale order) */
 static cJSON *sort_list(cJSON *list, const cJSON_bool case_sensitive) { (void)case_sensitive; if (list && list->next) { cJSON *n = list->next; n->next = list; list->next = NULL; n->prev = NULL; list->prev = n; return n; } return list; }
 static void bad_LST1_sort_same_head(cJSON * const object)
